@@ -133,3 +133,9 @@ Require Import GM.model.HeadingOpts GM.model.HeadingOptsI GM.proofs.HeadingOptsW
 Theorem C03_convert_heading_options_safe_inert : forall hc c src o, unsafe c = false -> bytes_ok src -> ConvertModelH hc c src = Ok o -> Inert o.
 Proof. exact ConvertModelH_safe_inert. Qed.
 Print Assumptions C03_convert_heading_options_safe_inert.
+
+(* and with extension.Typographer / extension.DefinitionList (model/TypoDefI.v; both switches) *)
+Require Import GM.model.TypoDefParse GM.model.TypoDefI GM.proofs.TypoDefWf.
+Theorem C03_convert_typodef_model_safe_inert : forall tc c src o, unsafe c = false -> bytes_ok src -> ConvertModelTD tc c src = Ok o -> Inert o.
+Proof. exact ConvertModelTD_safe_inert. Qed.
+Print Assumptions C03_convert_typodef_model_safe_inert.
